@@ -228,7 +228,7 @@ pub fn judge(c: &Case, st: &mut Stats) -> Verdict {
     st.eval();
     let entry = "v2::Builder -> bytes -> v2::Header::try_from";
     let fam = enc::family_code(&c.addr);
-    let values: Vec<Vec<u8>> = c.tlvs.iter().map(|t| fill(t.seed, t.len)).collect();
+    let values: Vec<Vec<u8>> = c.tlvs.iter().map(|t| bld::tlv_value(t.named.map(|i| enc::TYPE_CODES[i].1).unwrap_or(t.kind), t.seed, t.len)).collect();
     // reference encoding; named types carry their registered codes (literals in oracle/enc.rs)
     let mut payload = enc::enc_addr(&c.addr);
     let mut list: Vec<(u8, &[u8])> = Vec::new();
